@@ -975,14 +975,21 @@ pub const fn inv_mod(&self, modulus: &Self) -> (ret__: ConstCtOption<Self>)
     proof {
         if mv >= 1 {
             assert(mask.v() == pk - 1);
-            assert forall|ys: Seq<Limb>, ts: Seq<Limb>| (forall|j: int| 0 <= j < LIMBS ==> ts[j].0 == ys[j].0 & mask.limbs@[j].0)
-                implies #[trigger] val(ts, LIMBS as nat) == #[trigger] val(ys, LIMBS as nat) % pk by {
-                lemma_and_mask(ys, mask.limbs@, ts, LIMBS as nat, k as nat);
-            }
         }
     }
 //@-
         let t = (b.wrapping_sub(&a).wrapping_mul(&m_odd_inv)).bitand(&mask);
+//@+
+    proof {
+        if mv >= 1 {
+            assert forall|ys: Seq<Limb>| (forall|j: int| 0 <= j < LIMBS ==> t.limbs@[j].0 == ys[j].0 & mask.limbs@[j].0)
+                implies t.v() == #[trigger] val(ys, LIMBS as nat) % pk by {
+                lemma_and_mask(ys, mask.limbs@, t.limbs@, LIMBS as nat, k as nat);
+            }
+            assert(t.v() == ((((b.v() - a.v()) % w) * m_odd_inv.v()) % w) % pk);
+        }
+    }
+//@-
         // Will not overflow since `a <= s - 1`, `t <= 2^k - 1`,
         // so `a + s * t <= s * 2^k - 1 == modulus - 1`.
         let result = a.wrapping_add(&s.wrapping_mul(&t));
@@ -991,7 +998,6 @@ pub const fn inv_mod(&self, modulus: &Self) -> (ret__: ConstCtOption<Self>)
         if mv >= 1 {
             lemma_val_bound(result.limbs@, LIMBS as nat);
             if is_some.t() {
-                assert(t.v() == ((((b.v() - a.v()) % w) * m_odd_inv.v()) % w) % pk);
                 lemma_garner(xv, mv, sv, k as nat, w, a.v(), b.v(), m_odd_inv.v(), t.v(), result.v());
                 lemma_inverse_coprime(xv as nat, mv as nat, result.v());
             } else if gcd(xv as nat, mv as nat) == 1 {
